@@ -24,3 +24,7 @@ claim("C03",
 claim("C04",
       "Decides that the pitch tested against 0..127 is base + 12*octave + semitone computed without any 8/16-bit intermediate, that every emission is guarded by that range, channel = (channel+offset) mod 16, velocity = configured velocity; that every up/down/reset action stores exactly load±1 / the neutral constant into its own field with saturation guards for channel and mapping (inductive invariants channel in [0,15], mapping >= 0), the pair table of checkDoubleActions, the record->detect->invoke protocol of action presses, and initialisation from Defaults. Known finding: int8 octave/semitone wrap after 128 net steps.",
       COMMON_NOTE, "affine-form and interval reasoning over enumerated SSA paths (no solver), inductive field invariants, table cross-check")
+
+claim("C05",
+      "Decides that every value a device sends is the direct result of one of the three constructors, that each constructor builds a 3-byte `kind|channel, b1, b2` message with a channel-voice kind, and that at every constructor call site the channel nibble is <= 15 and note / velocity / controller-number / pitch-bend bytes are within 0..127 - by dominating range guards, mod-16, counted loops, the tracker container invariant and the Device.channel / velocity field invariants, each of which is established at all its store sites and back to the parser's checks. NOT decided: the value byte of analog Control Change messages (floating-point bound).",
+      COMMON_NOTE, "interval reasoning with dominating guards over go/ssa, inductive field/container invariants, who-may-construct/send")
